@@ -1,6 +1,6 @@
 package main
 
-// Driver "udpclose" (not part of the check; a replay for the finding reported in design/C01.md):
+// Driver "udpclose" (replay of the repaired finding F-C01a, run by every check):
 // client/proxy/udp.go and sudp.go build the limiter wrapper with a close function that captures the
 // parameter `conn`, which is REASSIGNED two statements later to the outer wrapper
 // (conn = netpkg.WrapReadWriteCloserToConn(rwc, conn)).  Closing the proxy's work connection therefore
@@ -68,12 +68,21 @@ func udpCloseOnce(kind string, limit bool) int32 {
 
 func runUDPClose(cfg *hx.RunCfg) error {
 	hx.Quiet()
+	var fails []map[string]string
 	for _, kind := range []string{"udp", "sudp"} {
 		a, b := udpCloseOnce(kind, false), udpCloseOnce(kind, true)
+		if a != 1 || b != 1 {
+			fails = append(fails, map[string]string{"key": "udp-limiter-close:" + kind,
+				"what": fmt.Sprintf("client %s proxy: the underlying work connection received %d Close() calls without and %d with a client-side bandwidth limit after proxy.Close() (expected 1 and 1)", kind, a, b),
+				"case": "client/proxy." + kind + " InWorkConn over a counting connection, then Close()"})
+		}
 		fmt.Printf("%s proxy: Close() calls on the underlying work connection after proxy.Close(): without limit %d, with client-side bandwidth limit %d\n", kind, a, b)
 		cfg.St[kind+"_closes_without_limit"] = a
 		cfg.St[kind+"_closes_with_limit"] = b
 	}
 	cfg.St["cases"] = 4
+	cfg.St["distinct_nontrivial"] = 4
+	cfg.St["impl_failures"] = fails
+	cfg.St["samples"] = []string{"udp/sudp client proxy x {no limit, client-side limit}: Close() calls on the underlying work connection"}
 	return nil
 }
